@@ -24,6 +24,9 @@ func plainJSON(v any, depth int) bool {
 	case decimal128.Decimal:
 		return !x.IsNaN() && !x.IsInf(0)
 	case []any:
+		if x == nil {
+			return false // a nil slice is an array to the language but serialises as null
+		}
 		for _, e := range x {
 			if !plainJSON(e, depth+1) {
 				return false
@@ -31,6 +34,9 @@ func plainJSON(v any, depth int) bool {
 		}
 		return true
 	case map[string]any:
+		if x == nil {
+			return false // likewise a nil map
+		}
 		for _, e := range x {
 			if !plainJSON(e, depth+1) {
 				return false
@@ -46,6 +52,8 @@ var c18E1 = []string{
 	"to_array(a)", "a + b", "-a", "abs(a)", "sum(a)", "avg(a)", "max(a)", "items(a)", "merge(a, b)", "zip(a, b)", "split(a, b)", "type(a)", "to_number(a)",
 	"missing", "a.missing", "a[5]", "`null`", "a / b", "a * b", "`1e4000` / a", "`1e4000` / `1e-4000`", "[`-1e4000` / `1e-4000`]", "{x: `1e6000` * `1e6000`}", "`9e6144` * a", "a / `1e-6000`", "sum([a, `9e6144`, `9e6144`])",
 	"abs(`1e7000`)", "max([`1e7000`, a])", "-`1e7000`", "ceil(`-1e7000`)", "min([a, `-1e7000`])", "[floor(`1e7000`)]", "{x: abs(`-1e7000`)}", "max_by([`1e7000`], &@)",
+	// bare selectors and slices over arrays / objects whose members may all be null: the result is an empty array, not a nil one
+	"a[*]", "[*]", "a[?@]", "a[:1]", "a[::-1]", "a[][]", "*", "a[*][*]", "a[*] | [*]", "[a[*], b[*]]", "{x: a[*]}", "a[*] || b", "a[?b][*]", "a[*][0]", "a.*.*", "[*][*]",
 	"find_first(a, b)", "ceil(a)", "not_null(a, b)", "map(&b, a)", "group_by(a, &b)", "from_items(a)", "a == b", "a < b", "!a", "a && b", "join(b, a)", "pad_left(a, `3`)",
 }
 
